@@ -175,7 +175,14 @@ class Gen(FnSpec):
 
 def make_specs():
     W = World()
-    return [Gen(W, "moved"), Gen(W, "created")]
+    out = [Gen(W, "moved"), Gen(W, "created")]
+    # the property's third anchor: the same prefix rewrite in the watch-path map of Inotify.read_events (C02's contracts:
+    # per-record map contract, re-key loop invariant, the event handed on carries the current path of its descriptor)
+    from specs import c02
+    for sp in c02.make_specs():
+        sp.prop = PROP
+        out.append(sp)
+    return out
 
 
 def lemmas():
@@ -185,7 +192,8 @@ def lemmas():
     top, a, n = z3.Consts("top a n", S)
     k, ms, new, sep = z3.Consts("k ms new sep", S)
     out = [Obligation("lemma[E1-step: join keeps the walked prefix]", "lemma", [z3.PrefixOf(top, a), plain_name(n)], z3.PrefixOf(top, str_join_term(a, n)), "", "os.walk")]
-    return out
+    from specs.inotify_read import string_lemmas
+    return out + string_lemmas()
 
 
 EXPECTED_CLAUSES = ["post[directory-entries-first", "post[file-entries-each", "post[one-event-per-entry", "post[one-block", "loop2.preserved[dir-events]", "loop3.preserved[file-events]", "lemma[prefix-decomposition]"]
